@@ -1564,6 +1564,11 @@ func runC20(tier string, seed uint64, o *Out) error {
 		return err
 	}
 	phase("P registry")
+	// (8b) the same registry, scalar functions over UNHASHABLE elements (arrays of arrays / maps), c20e.go
+	if err := c20RunUnhashableFamily(rng, tier, o); err != nil {
+		return err
+	}
+	phase("P registry unhashable")
 	// (8) the same expression text over differently typed rows at every site that reaches the expression
 	//     bridge, every solo run in a fresh process (c20c.go)
 	if err := c20RunTypedBridgeFamily(rng, tier, o); err != nil {
